@@ -340,7 +340,9 @@ def p1_lilim_pairing(F, r):
         r.fail("read_jobs: pickup test", f"{len(guards)} comparisons of the demand with zero decide which customers are pickups", F.loc(root))
     else:
         op, bj, s2 = guards[0]
-        sw = [sb for sb, bb in enumerate(fn["bbs"]) if bb["t"]["k"] == "switch" and mir.is_place(bb["t"]["o"]) and bb["t"]["o"]["l"] == s2["d"]["l"]]
+        # the switch may test a copy of the comparison (`let is_pickup = customer.demand > 0; if is_pickup {..}`)
+        sw = [sb for sb, bb in enumerate(fn["bbs"]) if bb["t"]["k"] == "switch" and mir.is_place(bb["t"]["o"]) and
+              (bb["t"]["o"]["l"] == s2["d"]["l"] or any(k == "bin" and fn["bbs"][v[0]]["s"][v[1]] is s2 for k, v, p_ in mir.trace(fn, bb["t"]["o"])))]
         ok = op == "Gt" and len(sw) == 1 and bi in mir.reach(fn, [fn["bbs"][sw[0]]["t"]["else"]], blocked={sw[0]}) and \
             bi not in mir.reach(fn, [x for v, x in fn["bbs"][sw[0]]["t"]["tg"] if v == 0], blocked={sw[0]})
         if ok:
